@@ -5,6 +5,7 @@
 
 pub mod common;
 pub mod bdoc;
+pub mod c00;
 pub mod c16;
 pub mod c17;
 pub mod c18;
